@@ -424,10 +424,22 @@ impl Task {
                 ctx.dispatch_act(&act, false)?;
             }
             EventAction::Remove => {
+                if self.state().is_completed() {
+                    return Err(ActError::Action(format!(
+                        "task '{}:{}' is already completed",
+                        self.pid, self.id
+                    )));
+                }
                 self.set_state(TaskState::Removed);
                 self.next(ctx)?;
             }
             EventAction::Submit => {
+                if self.state().is_completed() {
+                    return Err(ActError::Action(format!(
+                        "task '{}:{}' is already completed",
+                        self.pid, self.id
+                    )));
+                }
                 self.set_state(TaskState::Submitted);
                 self.next(ctx)?;
             }
